@@ -4,6 +4,7 @@
 # thorough if quick is silent; REPO_DIR points the checks at the scratch tree), reverts, and prints one
 # line per seed. Seeds of one property run one after the other in the same job (they share
 # evidence/<ID>.json); N jobs (default 4) run side by side.
+# QUICK_ONLY=1 skips the thorough tier.
 # NOTE: the evidence files are overwritten by these mutant runs; re-run ./run_all.sh quick afterwards.
 cd "$(dirname "$0")/.."
 . ./env.sh
@@ -30,7 +31,7 @@ job() { # $1 = job number
       for p in $prop $also; do
         out=$(./check "$p" --tier quick 2>&1); code=$?
         tier=quick
-        if [ $code -eq 0 ]; then out=$(./check "$p" --tier thorough 2>&1); code=$?; tier=thorough; fi
+        if [ $code -eq 0 ] && [ -z "${QUICK_ONLY:-}" ]; then out=$(./check "$p" --tier thorough 2>&1); code=$?; tier=thorough; fi
         first=$(echo "$out" | grep -A2 '^VIOLATION' | sed -n '2,3p' | tr '\n' ' ' | cut -c1-220)
         n=$(echo "$out" | grep -c '^VIOLATION')
         res="$res [$p:$tier exit=$code violations_listed=$n $first]"
